@@ -146,10 +146,24 @@ func HarnessC13Boolean() {
 	a, b := verif.Byte("a"), verif.Byte("b")
 	verif.Assume(verif.And(verif.And(a >= 'a', a <= 'z'), verif.And(b >= 'a', b <= 'z')))
 	row := table.Row{"?a": textCell(string([]byte{a})), "?b": textCell(string([]byte{b}))}
-	l1, e1 := semantic.NewEvaluationExpression(semantic.LT, "?a", "?b")
-	l2, e2 := semantic.NewEvaluationExpression(semantic.EQ, "?a", "?b")
+	// each leaf: a comparison (<, >, =) of ?a with ?b, or of ?a / ?b with the text constant "m"
+	leaf := func(name string) (semantic.Evaluator, bool, error) {
+		op := c13Ops[verif.Choice(name+".op", 3)]
+		switch verif.Choice(name+".kind", 3) {
+		case 0:
+			e, err := semantic.NewEvaluationExpression(op, "?a", "?b")
+			return e, holds(op, a < b, a == b), err
+		case 1:
+			e, err := semantic.NewEvaluationExpressionForLiteral(op, "?a", "\"m\"^^type:text")
+			return e, holds(op, a < 'm', a == 'm'), err
+		default:
+			e, err := semantic.NewEvaluationExpressionForLiteral(op, "?b", "\"m\"^^type:text")
+			return e, holds(op, b < 'm', b == 'm'), err
+		}
+	}
+	l1, v1, e1 := leaf("l1")
+	l2, v2, e2 := leaf("l2")
 	verif.Assume(e1 == nil && e2 == nil)
-	v1, v2 := a < b, a == b
 	shape := verif.Choice("shape", 6)
 	var ev semantic.Evaluator
 	var err error
